@@ -56,6 +56,8 @@ VALUES = {
     'zero_neg': lambda: [-0.0, 1.5],
     'ragged': lambda: [[8], [8, 8], [16, 8, 4]],
     'ragged_t': lambda: ((3,), (3, 3)),
+    # a collection of values that are all falsy - each is a value like any other (None: 'use the default', 0, False, '')
+    'falsy': lambda: [None, 0, False, '', 0.0],
 }
 EXPANDED = {
     'enum_class': [Policy.GREEDY, Policy.LAZY, Policy.FAIR], 'plain_class': [Strategy],
@@ -64,6 +66,7 @@ EXPANDED = {
     'npdt': ['dt:2021-03-04T05:06:07.000000008', 'dt:2021-03-05T00:00:00.000000000'],
     'tuple_f': [1.0, 1.0], 'legacy_seq': [4, 5, 6], 'one_tuple': [[10, 20]], 'one_list': [[11, 12, 13]], 'one_empty': [[]],
     'ragged': [[8], [8, 8], [16, 8, 4]], 'ragged_t': [[3], [3, 3]], 'zero_pos': [0.0, 1.5], 'zero_neg': [-0.0, 1.5],
+    'falsy': [None, 0, False, '', 0.0],
 }
 NAMES = ['pa', 'pb', 'pc']
 STARTS = {
@@ -723,7 +726,7 @@ def run(ctx):
     elif ctx.tier == 'quick':
         vals = ['int', 'str', 'empty', 'one', 'two', 'tuple_rep', 'range2', 'nparr', 'none', 'np2d', 'np0d', 'npdt', 'tuple_f',
                 'legacy_seq', 'one_tuple', 'one_list', 'one_empty', 'ragged', 'ragged_t', 'zero_pos', 'zero_neg', 'enum_class',
-                'plain_class']
+                'plain_class', 'falsy']
         plan = [('empty', vals, 3), ('dict_ab', vals[:5], 2), ('empty_dict', vals[:3], 1), ('dict_ba', vals[3:8], 2),
                 ('dict_special', vals[:5], 2)]
     else:
